@@ -143,8 +143,12 @@ FLOAT_LITS = [0.0, 0.5, 1.5, 2.5, -0.5, -2.5, 3.0, 0.25, 100.0, 7.75]
 STR_LITS = ["", "a", "ab", "hello", "12", " 7 ", "x y"]
 
 
-def gen_expr(rng, depth, names=(), kinds=("int", "float", "bool", "str"), allow_calls=True, allow_div=True):
-    """returns Python source of a random expression (mostly well-typed numerics)"""
+BIG_RHS = [5, 31, 63, 64, 100, 1000, 1365, 1366, 2047, 2048, 2049, 4093, 4094, 4095, 4096, 4097, 5000]
+
+
+def gen_expr(rng, depth, names=(), kinds=("int", "float", "bool", "str"), allow_calls=True, allow_div=True, big_rhs=False):
+    """returns Python source of a random expression (mostly well-typed numerics); big_rhs: exponents and shift counts
+    are also drawn around and far beyond the evaluator's size bound (default off: same stream as before)"""
     def lit():
         k = rng.choice(kinds)
         if k == "int":
@@ -171,6 +175,8 @@ def gen_expr(rng, depth, names=(), kinds=("int", "float", "bool", "str"), allow_
             rhs = go(d - 1)
             if op in ("**", "<<", ">>"):
                 rhs = str(rng.choice([0, 1, 2, 3]))
+                if big_rhs and rng.random() < 0.6:
+                    rhs = str(rng.choice(BIG_RHS))
             return f"({go(d - 1)} {op} {rhs})"
         if r < 0.55:
             return f"({rng.choice(['-', '+', 'not '])}{go(d - 1)})"
